@@ -1,0 +1,147 @@
+//go:build verif
+
+package column
+
+import (
+	"sync/atomic"
+	"time"
+
+	"github.com/kelindar/column/commit"
+)
+
+// This file is only compiled with the "verif" build tag. It contains the yield
+// hook used by the verification harness to control goroutine interleavings and
+// read-only accessors used for state dumps. Nothing here changes behaviour.
+
+var verifYieldFn atomic.Value // func(string)
+
+// VerifSetYield installs (or, with nil, removes) the yield callback.
+func VerifSetYield(fn func(point string)) {
+	if fn == nil {
+		fn = func(string) {}
+	}
+	verifYieldFn.Store(fn)
+}
+
+func verifYield(point string) {
+	if fn, ok := verifYieldFn.Load().(func(string)); ok && fn != nil {
+		fn(point)
+	}
+}
+
+// VerifFill returns a copy of the fill list words and the row counter.
+func (c *Collection) VerifFill() ([]uint64, uint64) {
+	c.lock.RLock()
+	defer c.lock.RUnlock()
+	out := make([]uint64, len(c.fill))
+	copy(out, c.fill)
+	return out, atomic.LoadUint64(&c.count)
+}
+
+// VerifCommits returns a copy of the per-chunk last commit IDs.
+func (c *Collection) VerifCommits() []uint64 {
+	c.lock.RLock()
+	defer c.lock.RUnlock()
+	out := make([]uint64, len(c.commits))
+	copy(out, c.commits)
+	return out
+}
+
+// VerifRecording tells whether a snapshot recorder is currently installed.
+func (c *Collection) VerifRecording() bool {
+	_, ok := c.isSnapshotting()
+	return ok
+}
+
+// VerifBits returns a copy of the bitmap of an index or bool column.
+func (c *Collection) VerifBits(name string) ([]uint64, bool) {
+	col, ok := c.cols.Load(name)
+	if !ok {
+		return nil, false
+	}
+	col.lock.RLock()
+	defer col.lock.RUnlock()
+	switch v := col.Column.(type) {
+	case *columnIndex:
+		out := make([]uint64, len(v.fill))
+		copy(out, v.fill)
+		return out, true
+	case *columnBool:
+		out := make([]uint64, len(v.data))
+		copy(out, v.data)
+		return out, true
+	}
+	return nil, false
+}
+
+// VerifKeys returns a copy of the primary key lookup table.
+func (c *Collection) VerifKeys() map[string]uint32 {
+	out := make(map[string]uint32)
+	if c.pk == nil {
+		return out
+	}
+	c.pk.lock.RLock()
+	defer c.pk.lock.RUnlock()
+	for k, v := range c.pk.seek {
+		out[k] = v
+	}
+	return out
+}
+
+// VerifSortEntry is one (key, offset) entry of a sorted index.
+type VerifSortEntry struct {
+	Key   string
+	Value uint32
+}
+
+// VerifSorted returns the entries of a sorted index in B-tree order.
+func (c *Collection) VerifSorted(name string) ([]VerifSortEntry, bool) {
+	col, ok := c.cols.Load(name)
+	if !ok {
+		return nil, false
+	}
+	idx, ok := col.Column.(*columnSortIndex)
+	if !ok {
+		return nil, false
+	}
+	c.lock.RLock()
+	defer c.lock.RUnlock()
+	var out []VerifSortEntry
+	idx.btree.Scan(func(item sortIndexItem) bool {
+		out = append(out, VerifSortEntry{Key: item.Key, Value: item.Value})
+		return true
+	})
+	return out, true
+}
+
+// VerifChunks returns the number of chunks allocated by a data column (-1 if unknown).
+func (c *Collection) VerifChunks(name string) int {
+	col, ok := c.cols.Load(name)
+	if !ok {
+		return -1
+	}
+	col.lock.RLock()
+	defer col.lock.RUnlock()
+	switch v := col.Column.(type) {
+	case *columnString:
+		return len(v.chunks)
+	case *columnEnum:
+		return len(v.chunks)
+	case *columnKey:
+		return len(v.chunks)
+	case *columnRecord:
+		return len(v.chunks)
+	case interface{ verifChunks() int }:
+		return v.verifChunks()
+	}
+	return -1
+}
+
+func (c *numericColumn[T]) verifChunks() int { return len(c.chunks) }
+
+// VerifNow is the clock used by nothing in the package; it is here so that the
+// harness can record the wall clock it compared deadlines against.
+func VerifNow() int64 { return time.Now().UnixNano() }
+
+// VerifChunkOf returns the chunk of an offset.
+func VerifChunkOf(idx uint32) uint32 { return uint32(commit.ChunkAt(idx)) }
